@@ -40,10 +40,21 @@ var mods = []string{"example.com/a", "rsc.io/Quote", "github.com/Azure/Go-SDK", 
 var privateMods = []string{"private.example.com/x", "corp.example.com/secret/y", "git.corp.example.com/z"}
 
 func versionFor(mod string, k int) string {
+	major := "v1"
 	if strings.HasSuffix(mod, "/v2") {
-		return fmt.Sprintf("v2.0.%d", k)
+		major = "v2"
 	}
-	return fmt.Sprintf("v1.0.%d", k)
+	// versions 3 and 4 of every module have upper-case letters (escaped like paths in requests and cache file
+	// names, but not in the go.sum lines), 5 is a pseudo-version
+	switch k {
+	case 3:
+		return major + ".0.3-RC1"
+	case 4:
+		return major + ".1.0-Beta.2"
+	case 5:
+		return major + ".0.1-0.20240102030405-ABCdef012345"
+	}
+	return fmt.Sprintf("%s.0.%d", major, k)
 }
 
 func gosum(path, vers string) ([]byte, error) {
@@ -286,7 +297,7 @@ func genCase(t *rapid.T) *c14Case {
 			nl := rapid.IntRange(1, 3).Draw(t, "nlookups")
 			var ls []lookup
 			for i := 0; i < nl; i++ {
-				l := lookup{Mod: gen.Uniform(t, len(mods), "mod"), Ver: rapid.IntRange(0, 2).Draw(t, "ver"), GoMod: rapid.IntRange(0, 3).Draw(t, "gomod") == 0}
+				l := lookup{Mod: gen.Uniform(t, len(mods), "mod"), Ver: []int{0, 1, 2, 0, 1, 2, 3, 4, 5}[gen.Uniform(t, 9, "ver")], GoMod: rapid.IntRange(0, 3).Draw(t, "gomod") == 0}
 				if c.Patterns != "" && (privateOnly || gen.Chance(t, 12, "private")) {
 					l.Mod = len(mods) + gen.Uniform(t, len(privateMods), "pm")
 				}
